@@ -383,7 +383,10 @@ def judge(ctx, tp, cases=None, max_violations=6):
     if blocks:
         ctx.sample({"block": short([json.loads(x) for x in blocks[0][:3]])})
     remaining = blocks
-    for attempt in range(max_violations + 1):
+    fresh = 0
+    for attempt in range(30):
+        if fresh > max_violations:
+            break
         cur = ctx.path("cur.ndjson")
         with open(cur, "w") as fh:
             for b in remaining:
@@ -418,9 +421,9 @@ def judge(ctx, tp, cases=None, max_violations=6):
             sig = "tag=%s op=%s frames=%s sent=%s leftover=%s upl=%s wirepl=%s" % (tag, e.get("op"), e.get("frames"), e.get("sent"),
                                                                                   e.get("leftover"), e.get("upl"), e.get("wirepl"))
         case = cases[e["ci"]] if cases is not None and isinstance(e.get("ci"), int) and e["ci"] < len(cases) else None
-        ctx.violation(tag, sig, "real code contradicts %s: %s" % (tag, json.dumps(short(e, 12))[:400]),
+        fresh += 1 if ctx.violation(tag, sig, "real code contradicts %s: %s" % (tag, json.dumps(short(e, 12))[:400]),
                       {"case": case, "block": short([json.loads(x) for x in bad], 80), "line_in_block": pos,
-                       "spec_state": (res["state"] or "")[:1500]})
+                       "spec_state": (res["state"] or "")[:1500]}) else 0
         remaining = remaining[:i] + remaining[i + 1:]
         if not remaining:
             return
